@@ -234,6 +234,15 @@ def run(prog, rep):
     px = Expander(pc, pg)
     vt = [n for n in pg.nodes if n.kind == "raise" and any("_validate_values(" in t and not p for t, p in
                                                            [(tt, pp) for tt, pp, _ in _xatoms(pg, n, px)])]
+    if not vt:
+        # the refusal sits in a private helper that merge_check calls (`self._require_convertible(values, "merge")`): judged at the call
+        for h in private_closure(pc):
+            if h is pc:
+                continue
+            hg = build_cfg(h)
+            hx = Expander(h, hg)
+            if any(n.kind == "raise" and any("_validate_values(" in t and not p for t, p, _ in _xatoms(hg, n, hx)) for n in hg.nodes):
+                vt += [n for n in pg.nodes if any(isinstance(c.func, ast.Attribute) and c.func.attr == h.name for r in n.expr_roots() for c in calls_in(r))]
     indep = bool(vt) and all(not any(t == "strict" for t, p, _ in _xatoms(pg, n, px)) for n in vt)
     # ... and whatever the destination holds: an empty destination with a dtype converts the source values just the same
     for n in vt:
